@@ -1204,6 +1204,9 @@ class Interp(object):
     return None
 
   def sym_arith(self, op, a, b):
+    return inherit_shape(self._sym_arith(op, a, b), (a, b))
+
+  def _sym_arith(self, op, a, b):
     ea, eb = self.num(a), self.num(b)
     pt = self.pytype_of(a, b)
     ga, gb = self.grad_of(a), self.grad_of(b)
